@@ -5,7 +5,7 @@
    arbitrary list of work-connection arrivals, user connections, timers and session teardowns; the
    oracle [cf_dead] says which connections the peer has reset before the server writes on them.
    The hand-off channels of the group / vhost accept paths are the second model ([h_exec]). *)
-From FRP Require Import Model.Pool Proofs.PoolProofs gen.GenPoolClamp gen.GenSendLoop.
+From FRP Require Import Model.Pool Proofs.PoolProofs gen.GenPoolClamp gen.GenSendLoop gen.GenAcceptPaths.
 Open Scope Z_scope.
 
 (* pooled connections never exceed the session's capacity poolCount + 10, in every reachable state *)
@@ -263,7 +263,7 @@ Theorem C11_sendloop_dying_refuted :
                 cf_reqs := [RSendLoop; RUser [] [] 1 false; RUser [] [] 2 false; RUser [] [] 3 false;
                             RUser [] [] 4 false; RTimeout 4];
                 cf_dead := fun _ => false; cf_qcap := 2; cf_wfail := fun _ => true; cf_sl_survives := false |} in
-  let s := pl_exec cfg ([1; 1; 0; 2; 2; 3; 3; 4; 4] ++ List.concat (repeat [0; 4; 5] 20))%nat in
+  let s := pl_exec cfg (List.app [1; 1; 0; 2; 2; 3; 3; 4; 4] (List.concat (repeat [0; 4; 5] 20)))%nat in
   ps_thr s 0%nat = TS SLEnd /\ ps_ddone s = false /\ ps_thr s 4%nat = TU (UReq 0) /\ ps_user s 4%nat = UOpen.
 Proof. vm_compute. repeat split; reflexivity. Qed.
 Print Assumptions C11_sendloop_dying_refuted.
@@ -279,3 +279,65 @@ Theorem C11_generated_pool_code_bounded :
               gen11_chan_cap c m = Z.max 0 (Z.min c m) + 10.
 Proof. exact generated_pool_code_bounded. Qed.
 Print Assumptions C11_generated_pool_code_bounded.
+
+
+(* ---- load-balancing groups: the accept worker, the unbuffered hand-off and the members' Accept ---- *)
+
+(* every schedule of arrivals, member closes and member accept loops, every resolution of the selects in which
+   closeCh and the hand-off are both ready: a connection accepted by the group is never dropped unclosed ... *)
+Theorem C11_group_conn_never_lost : forall cfg sched u,
+  gc_close_on_fail cfg = true -> gc_recheck_drops cfg = false ->
+  gs_fate (g_exec cfg sched) u <> GLost /\ forall m, gs_fate (g_exec cfg sched) u <> GTaken m.
+Proof. exact group_conn_never_lost. Qed.
+Print Assumptions C11_group_conn_never_lost.
+
+(* ... and once the worker is through with it, it was refused by the closed socket, closed by the worker,
+   or returned by exactly one member's Accept (whose handler then runs: direct-path theorems) *)
+Theorem C11_group_conn_handled_by_one_or_closed : forall cfg sched u,
+  gc_close_on_fail cfg = true -> gc_recheck_drops cfg = false ->
+  let s := g_exec cfg sched in
+  gs_thr s u = Some GConnEnd ->
+  gs_fate s u = GRefused \/ gs_fate s u = GClosedOnFail \/ exists m, gs_fate s u = GHandled m.
+Proof. exact group_conn_handled_by_one_or_closed. Qed.
+Print Assumptions C11_group_conn_handled_by_one_or_closed.
+
+(* a pending connection is resolved by whoever comes next: an open member's Accept receives and returns it;
+   once the hand-off channel is closed (last member gone) the worker's own step closes it *)
+Theorem C11_group_pending_progress : forall cfg s u,
+  gc_close_on_fail cfg = true -> gc_recheck_drops cfg = false -> gs_pending s = Some u ->
+  (forall t m, gs_thr s t = Some GLRun -> nth_error (gc_reqs cfg) t = Some (GLoop m) ->
+     gs_chclosed s = false -> gs_closech s m = false -> gs_fate (g_step cfg s t) u = GHandled m) /\
+  (gs_thr s u = Some GSending -> gs_chclosed s = true -> gs_fate (g_step cfg s u) u = GClosedOnFail).
+Proof. exact group_pending_progress. Qed.
+Print Assumptions C11_group_pending_progress.
+
+(* reflective, over today's translator output: in both group listeners' Accept the clause that receives from
+   the hand-off channel returns the received connection on every path except "!ok" *)
+Theorem C11_group_accept_today : group_accepts_ok gen_group_accepts = true.
+Proof. vm_compute. reflexivity. Qed.
+Print Assumptions C11_group_accept_today.
+
+(* regression witness (seeded change "Accept re-checks closeCh after the receive"): arrival, member 0 receives,
+   member 0 is closed, the re-check drops the connection *)
+Theorem C11_group_recheck_refuted :
+  gs_fate (g_exec {| gc_reqs := [GConn; GLoop 0; GLoop 1; GCloser 0]; gc_members := 2; gc_pick := fun _ => true;
+                     gc_close_on_fail := true; gc_recheck_drops := true |} [0; 1; 3; 1]%nat) 0%nat = GLost.
+Proof. vm_compute. reflexivity. Qed.
+Print Assumptions C11_group_recheck_refuted.
+
+(* ---- pooled compression wrappers (every WithCompressionFromPool call site of server/, client/, pkg/, cmd/) ----
+   reflective over today's table: each site sits in a function without results (the wrapped connection is
+   not returned), recycles only by a deferred call or after the Join that uses the connection, and does Join
+   after the wrap; the direct-path handler handleUserTCPConnection is among them.  Hence no recycled snappy
+   object is still attached to a live work connection when another user's wrapper takes it from the pool —
+   the premise under which "one work connection, one user" carries over from sockets to byte streams. *)
+Theorem C11_pool_compress_sites_ok :
+  gen_pool_compress_unknown = false /\
+  (forall f fn r c j, In (f, fn, r, c, j) gen_pool_compress_sites -> r = false /\ c = true /\ j = true) /\
+  In ("server/proxy/proxy.go", "handleUserTCPConnection", false, true, true)%string gen_pool_compress_sites.
+Proof.
+  split; [reflexivity|]. split.
+  - exact (compress_sites_sound gen_pool_compress_sites (eq_refl true <: forallb compress_site_ok gen_pool_compress_sites = true)).
+  - vm_compute. tauto.
+Qed.
+Print Assumptions C11_pool_compress_sites_ok.
